@@ -38,6 +38,8 @@ def case_sexp(case):
         parts.append(('cond',) + tuple(case['cond']))
     if case.get('forall'):
         parts.append(('forall', case['forall'][0]) + tuple(case['forall'][1]))
+    if case.get('decl_order'):
+        parts.append(('decl',) + tuple(case['decl_order']))
     return sexp(tuple(parts))
 
 
